@@ -145,6 +145,8 @@ type gen struct {
 	onPlace func() // name resolution of the expression being placed, run where it stands in source order
 	plain   bool   // the expression being placed may yield a boolean: no arithmetic around it
 
+	loaded []int // query ids that run inside a chunk made by loadstring: what = "main", lines 0, currentline 1
+
 	classes map[string]bool
 	kf      map[string]bool
 }
@@ -1438,6 +1440,91 @@ func (g *gen) cothread(fx *fctx, depth int) []*Stmt {
 	}
 }
 
+// codead: a coroutine killed by a run-time error keeps its frames: level 0 of the dead thread
+// is the function in which the error was raised (its line, its variables), level 1 its caller.
+func (g *gen) codead(fx *fctx, depth int) []*Stmt {
+	f := &Func{ID: g.fn()}
+	cx := &fctx{fn: f, parent: fx, callerNLoc: -1, underPcall: true}
+	cx.push()
+	pv := g.val()
+	f.Params = []Binding{{g.lname(), ival(pv)}}
+	cx.declare(f.Params[0])
+	f.Body = append(f.Body, g.declLocal(cx, true))
+	q := g.pt("QD")
+	// the operation that fails (a VM-raised error: the failing frame is a Lua frame)
+	mkFault := func(c *fctx, body *[]*Stmt) *Expr {
+		var node *Expr
+		switch g.r.Intn(3) {
+		case 0:
+			node = index(name(fmt.Sprintf("UNDEF%d", g.r.Intn(3))), "f")
+		case 1:
+			node = bin("+", name(fmt.Sprintf("UNDEF%d", g.r.Intn(3))), num(1))
+		default:
+			node = call(index(name("T"), "none"), num(2))
+		}
+		node.Pt = g.pt("chain")
+		nm := g.lname()
+		*body = append(*body, &Stmt{K: "local", Names: []string{nm}, Exprs: []*Expr{node}, Vals: []*int{nil}})
+		c.declare(Binding{nm, nil})
+		return node
+	}
+	observe := func(fn *Func, node *Expr, lvl int) {
+		g.lines = append(g.lines, lineObs{"range", func() int { return node.First }, func() int { return node.Anchor }, obsSrc{"cur", 0, q.ID, lvl}, "currentline/dead"})
+		g.defLines(fixed(fn), q.ID, lvl)
+		g.scopes = append(g.scopes, scopeObs{fixed(fn), node.Pt.ID, q.ID, lvl})
+	}
+	if g.r.Bool() {
+		node := mkFault(cx, &f.Body)
+		observe(f, node, 0)
+	} else {
+		// one call deeper: body -> inner, inner fails
+		in := &Func{ID: g.fn()}
+		ix := &fctx{fn: in, parent: cx, callerNLoc: -1}
+		ix.push()
+		av := g.val()
+		in.Params = []Binding{{g.lname(), ival(av)}}
+		ix.declare(in.Params[0])
+		in.Body = append(in.Body, g.declLocal(ix, true))
+		node := mkFault(ix, &in.Body)
+		in.Body = append(in.Body, &Stmt{K: "return", Exprs: []*Expr{num(1)}})
+		inName := g.fresh("f")
+		cx.declare(Binding{inName, nil})
+		f.Body = append(f.Body, &Stmt{K: "localfunc", Names: []string{inName}, Fn: in})
+		ce := call(name(inName), num(av))
+		ce.Pt = g.pt("chain")
+		f.Body = append(f.Body, &Stmt{K: "local", Names: []string{g.lname()}, Exprs: []*Expr{ce}, Vals: []*int{nil}})
+		observe(in, node, 0)
+		observe(f, ce, 1)
+	}
+	f.Body = append(f.Body, &Stmt{K: "return", Exprs: []*Expr{num(1)}})
+	co := g.fresh("co")
+	fx.declare(Binding{co, nil})
+	g.classes["codead"] = true
+	g.size += 3
+	return []*Stmt{
+		{K: "local", Names: []string{co}, Vals: []*int{nil}, Exprs: []*Expr{call(index(name("coroutine"), "create"), &Expr{K: "func", Fn: f})}},
+		{K: "call", Exprs: []*Expr{call(index(name("coroutine"), "resume"), name(co), num(pv))}},
+		{K: "call", Exprs: []*Expr{call(name("QD"), num(q.ID), name(co))}},
+	}
+}
+
+// loadchunk: a query inside a chunk compiled by loadstring and called from Lua code: its
+// function is a main chunk (what = "main", defined on no line) although it is not the bottom
+// frame; level 2 is the calling statement.
+func (g *gen) loadchunk(fx *fctx, depth int) []*Stmt {
+	q := g.pt("Q")
+	e := call(call(name("loadstring"), str(fmt.Sprintf("\"local r = Q(%d) return r\"", q.ID))))
+	p := g.pt("chain")
+	e.Pt = p
+	g.loaded = append(g.loaded, q.ID)
+	g.lines = append(g.lines, lineObs{"range", func() int { return e.First }, func() int { return e.Anchor }, obsSrc{"cur", 0, q.ID, 2}, "currentline/2"})
+	g.defLines(fixed(fx.fn), q.ID, 2)
+	g.scopes = append(g.scopes, scopeObs{fixed(fx.fn), p.ID, q.ID, 2})
+	g.classes["loadchunk"] = true
+	g.onPlace = nil
+	return g.shape(fx, e, true, false, false, depth)
+}
+
 func (g *gen) perm(n int) []int {
 	p := make([]int, n)
 	for i := range p {
@@ -1501,7 +1588,12 @@ func (g *gen) act(fx *fctx, a action, depth int) []*Stmt {
 		return g.scenario(fx, depth)
 	case "factory":
 		return g.factory(fx, depth)
+	case "loadchunk":
+		return g.loadchunk(fx, depth)
 	case "cothread":
+		if g.r.Chance(40) {
+			return g.codead(fx, depth)
+		}
 		return g.cothread(fx, depth)
 	}
 	panic("action " + a.K)
@@ -1603,6 +1695,9 @@ func genProgram(r *lib.Rand) *Generated {
 		}
 		if r.Chance(25) {
 			acts = append(acts, action{K: "cothread"})
+		}
+		if r.Chance(20) {
+			acts = append(acts, action{K: "loadchunk"})
 		}
 		if r.Chance(30) {
 			// a chain entered directly from the main chunk, returning normally
